@@ -82,3 +82,72 @@ PROPS = {
 NOT_APPLICABLE = {
     "C09": "quantifies over thread schedules and interleavings of the rayon pipeline; Kani has no thread support and Verus would need the code rewritten onto its permission types, so no contract within reach can express or decide schedule independence or the soundness of `unsafe impl Sync for SharedValue` (the sequential ingredients — clone isolation, seed plumbing, optimiser frame — are proved under C10/C06)",
 }
+
+# ---------------------------------------------------------------- tables (C16, C10, C04, C17)
+_GROUPS = dict(p1=1, p2=2, p1m1=2, p1g1=2, p2mm=4, p2mg=4, p2gg=4)
+for _g, _n in _GROUPS.items():
+    for _k in range(_n):
+        KANI["k_tables_%s_%d" % (_g, _k)] = dict(
+            props=["C16", "C04", "C17"], kind="complete", covers="some", group=_g, index=_k,
+            fn="wallpaper.rs get_wallpaper_group + transform.rs Transform2::from_operations (real parser, concrete string)",
+            what="string %d of group %s parses to a general position of the ITA table of that group (modulo lattice translations); which entry is reported through a named cover" % (_k, _g))
+    KANI["k_tables_label_%s" % _g] = dict(
+        props=["C10", "C16", "C04"], kind="complete", fn="wallpaper.rs get_wallpaper_group, Wallpaper::new",
+        what="group %s: name equals the requested group's own name, crystal family and order as tabulated in ITA" % _g)
+
+
+def tables_bijection(kres):
+    """C16: the map string index -> ITA entry must be a bijection for every group (the property speaks
+    of the *set* of operations, so a reordered table is a neutral change).  Fast path: every string
+    sits at its ITA position (2 of 5 covers: position + entry).  Slow path (table reordered): the
+    harnesses concerned are re-run one by one in Kani's regular output format to read which entry matched."""
+    from . import kani as K
+    import os
+    out = []
+    for g, n in _GROUPS.items():
+        entry = {}
+        redo = []
+        for k in range(n):
+            r = kres.harness.get("k_tables_%s_%d" % (g, k))
+            if not r or r["status"] != "SUCCESS":
+                continue
+            if r["covers"][0] == 2:
+                entry[k] = "entry%d" % k
+            else:
+                redo.append(k)
+        if redo:
+            r2 = K.run(os.environ.get("VERIF_REPO", "/repo"), ["k_tables_%s_%d" % (g, k) for k in redo], jobs=1, fmt="regular", named_covers=True)
+            for k in redo:
+                rr = r2.harness.get("k_tables_%s_%d" % (g, k))
+                es = [c for c in (rr or {}).get("sat_covers", []) if c.startswith("entry")]
+                if len(es) == 1:
+                    entry[k] = es[0]
+        seen = {}
+        for k, e in entry.items():
+            seen.setdefault(e, []).append(k)
+        dup = {e: ks for e, ks in seen.items() if len(ks) > 1}
+        if dup:
+            out.append(dict(obligation="K:tables_bijection_%s" % g, props=["C16", "C04"], kind="post",
+                            message="group %s: strings %r denote the same ITA operation — an operation of the group is missing" % (g, dup),
+                            src="wallpaper.rs get_wallpaper_group", text=str(seen), rendered=str(seen)))
+    return out
+
+
+POST = {"C16": tables_bijection, "C04": tables_bijection}
+for _g in _GROUPS:
+    KANI["k_tables_axioms_%s" % _g] = dict(
+        props=["C16"], kind="complete", fn="ITA oracle table for %s (harness constants)" % _g,
+        what="the oracle table of %s contains the identity, is closed under composition and inverses modulo lattice translations, has no repeated entry, every linear part has determinant +-1, and has the group's mirror/glide/two-fold content" % _g)
+POST_COUNT = {"C16": len(_GROUPS), "C04": len(_GROUPS)}
+
+PROPS["C16"] = dict(
+    level="proof", units=[], lemmas=[],
+    kani=["k_tables_%s_%d" % (g, k) for g, n in _GROUPS.items() for k in range(n)] + ["k_tables_label_%s" % g for g in _GROUPS] + ["k_tables_axioms_%s" % g for g in _GROUPS],
+    explanation="Finite domain, decided completely: for each of the 19 table strings a Kani harness runs the crate's real parser on the real table entry and proves the result "
+                "equals, modulo whole lattice translations, an entry of an independent table typed from International Tables A; the driver checks that string -> entry is a bijection per group "
+                "(so the listed operations are exactly the general positions, in any order); label harnesses prove order and crystal family; axiom harnesses prove the ITA table itself contains "
+                "the identity, is closed under composition and inverse modulo the lattice, and has the stated mirror/glide/two-fold content.",
+    assumptions=["the ITA oracle table in /verif/kani/wallpaper.rs is typed correctly from International Tables A (its group axioms are machine-checked, its identity with the printed tables is not)",
+                 "CBMC unwinding assertions are on: the string loops are fully unwound (complete, not bounded)"],
+    technique="Kani/CBMC complete enumeration of a finite domain on the real parser and tables, against an independent ITA oracle",
+)
